@@ -60,13 +60,13 @@ public:
 		if (LOCALNAME(e) == "send" && HAS_ATTR(e, X("id"))) {
 			std::string id = ATTR(e, X("id"));
 			std::string d = HAS_ATTR(e, X("delay")) ? ATTR(e, X("delay")) : "0ms";
-			logLine("{\"k\":\"send\",\"i\":" + ATTR(e, X("event")).substr(2) + ",\"id\":" + id.substr(1) + ",\"delay\":" + std::to_string(atoi(d.c_str())) + ",\"t\":" + std::to_string(nowMs()) + "}");
+			logLine("{\"k\":\"send\",\"i\":" + ATTR(e, X("event")).substr(2) + ",\"id\":" + std::to_string(id.size() - 1) + ",\"delay\":" + std::to_string(atoi(d.c_str())) + ",\"t\":" + std::to_string(nowMs()) + "}");
 		}
 	}
 	void afterExecutingContent(const std::string&, const DOMElement* e) {
 		if (LOCALNAME(e) == "cancel") {
 			std::string id = ATTR(e, X("sendid"));
-			logLine("{\"k\":\"cancel\",\"id\":" + id.substr(1) + ",\"t\":" + std::to_string(nowMs()) + "}");
+			logLine("{\"k\":\"cancel\",\"id\":" + std::to_string(id.size() - 1) + ",\"t\":" + std::to_string(nowMs()) + "}");
 		}
 	}
 	void beforeProcessingEvent(const std::string&, const Event& ev) {
@@ -74,6 +74,9 @@ public:
 			logLine("{\"k\":\"deliver\",\"i\":" + ev.name.substr(2) + ",\"t\":" + std::to_string(nowMs()) + "}");
 	}
 };
+
+// sendids are prefix related on purpose (i1, i11, i111, ...): <cancel sendid="i1"/> must leave i11 alone
+static std::string idName(int g) { return "i" + std::string((size_t)g, '1'); }
 
 static unsigned rnd(unsigned& s) { s = s * 1103515245u + 12345u; return (s >> 8) & 0xffffff; }
 
@@ -91,11 +94,11 @@ static void oneRun(unsigned seed, FILE* out) {
 		delay[i] = FORCED ? 20 : DELAYS[rnd(s) % 6];
 		// every third send or so re-uses the sendid of the previous one: <cancel> has to cancel all of them
 		group[i] = (!FORCED && i > 1 && rnd(s) % 3 == 0) ? group[i - 1] : i;
-		doc += "<send event=\"d." + std::to_string(i) + "\" delay=\"" + std::to_string(delay[i]) + "ms\" id=\"i" + std::to_string(group[i]) + "\"/>";
+		doc += "<send event=\"d." + std::to_string(i) + "\" delay=\"" + std::to_string(delay[i]) + "ms\" id=\"" + idName(group[i]) + "\"/>";
 	}
 	doc += "</onentry>";
 	for (int i = 1; i <= n; i++)
-		doc += "<transition event=\"c" + std::to_string(i) + "\"><cancel sendid=\"i" + std::to_string(i) + "\"/></transition>";
+		doc += "<transition event=\"c" + std::to_string(i) + "\"><cancel sendid=\"" + idName(i) + "\"/></transition>";
 	doc += "<transition event=\"d\"/></state></scxml>";
 
 	// cancel plan: (time, id)
